@@ -245,12 +245,34 @@ def scan_module(prog, m):
                                isinstance(x.value, ast.Name) and x.value.id == me for x in ast.walk(st))
                 return True
         return False
+    def iterator(v):
+        """A module-level iterator object (a running generator, iter(...), itertools.count()): whatever has been taken
+        from it -- and whatever it has buffered -- outlives every re-seeding and every freshly built object."""
+        if isinstance(v, ast.GeneratorExp):
+            return True
+        if isinstance(v, ast.Call) and isinstance(v.func, (ast.Name, ast.Attribute)):
+            r = prog.resolve_name(m, v.func.id) if isinstance(v.func, ast.Name) else None
+            if r and r[0] == "func" and any(isinstance(x, (ast.Yield, ast.YieldFrom)) for x in ast.walk(r[1][1])):
+                return True
+            d = prog.dotted_of(m, v.func) or (v.func.id if isinstance(v.func, ast.Name) else "")
+            return d in ("iter", "map", "zip", "filter", "enumerate", "itertools.count", "itertools.cycle", "itertools.chain",
+                         "itertools.islice", "itertools.repeat")
+        return False
     for n in m.tree.body:
         tgt = None
         if isinstance(n, ast.Assign) and len(n.targets) == 1 and isinstance(n.targets[0], ast.Name):
             tgt, val = n.targets[0].id, n.value
         elif isinstance(n, ast.AnnAssign) and isinstance(n.target, ast.Name) and n.value is not None:
             tgt, val = n.target.id, n.value
+        if tgt and tgt != "__all__" and iterator(val) and any(
+                isinstance(x, ast.Name) and x.id == tgt and isinstance(x.ctx, ast.Load)
+                for f_ in ast.walk(m.tree) if isinstance(f_, (ast.FunctionDef, ast.AsyncFunctionDef, ast.Lambda))
+                for x in ast.walk(f_)):
+            counts["E4"] += 1
+            out.append(("E4", n.lineno, "", f"module-level {tgt} = {ast.unparse(val)[:60]}",
+                        f"module-level iterator `{tgt}` is advanced by the code that uses it: what it has handed out or buffered "
+                        f"so far survives re-seeding and is shared by every object created in the process"))
+            continue
         if tgt and tgt != "__all__" and mutable(val):
             counts["E4"] += 1
             if only_read(prog, m, tgt):
@@ -338,9 +360,66 @@ def _seeds(run, prog):
             if not ctx.inl and isinstance(ev, ir.Call) and ev.method is None and ev.recv is None and "." in ev.callee and \
                     not ev.callee.startswith(("self.", "local:", "ixai.", "?")):
                 own.add((ev.callee, ev.line))
+    # E5: what a draw chooses from must have a reproducible order.  A list made from a set has the set's iteration
+    # order -- by hash, i.e. by memory address for objects and by the per-process hash seed for strings -- so the same
+    # random number picks a different element in the next replay.
+    def is_set(t):
+        return (t[0] == "new" and t[2] in ("set", "frozenset")) or (t[0] == "comp" and t[1] == "set") or \
+            (t[0] == "fn" and t[1] in ("set", "frozenset"))
+
+    def set_ordered(t, depth=0):
+        if depth > 3 or not isinstance(t, tuple) or not t:
+            return None
+        if t[0] == "gate":
+            return set_ordered(t[2], depth) or set_ordered(t[3], depth)
+        if is_set(t):
+            return t
+        if t[0] == "new" and t[2] in ("list", "tuple") and len(t[3]) == 1 and isinstance(t[3][0], tuple) and is_set(t[3][0]):
+            return t[3][0]
+        if t[0] == "comp" and t[1] in ("list", "gen") and isinstance(t[3], tuple) and is_set(t[3]):
+            return t[3]
+        if t[0] == "res" and isinstance(t[2], str) and t[2].startswith("ixai.") and t[2] in prog_funcs:
+            try:
+                return set_ordered(prog.summarise_func(t[2]).ret, depth + 1)
+            except (ir.Unsupported, RecursionError):
+                return None
+        return None
+    prog_funcs = {f"{m_.name}.{fn_}" for m_ in prog.modules.values() for fn_ in m_.functions}
+    n_pop = 0
+    for m, c, name, fn, s in summaries:
+        for ev, ctx in walk(s.events):
+            if isinstance(ev, ir.Draw) and ev.prim.rsplit(".", 1)[-1] in ("choice", "choices", "sample", "shuffle", "permutation") \
+                    and ev.args and not ctx.inl:
+                n_pop += 1
+                src = set_ordered(ev.args[0])
+                if src is not None:
+                    fq = f"{c.name + '.' if c else ''}{name}"
+                    run.fail("E5", f"{fq}:{ev.prim}@{ev.line}", f"{s.path}:{ev.line}", fq,
+                             f"{ev.prim}({ir.show_nl(ev.args[0])[:60]}, ...)",
+                             f"{ev.prim} chooses from a sequence whose order is the iteration order of a set "
+                             f"({ir.show_nl(src)[:80]}): that order follows hash values (memory addresses of objects, the "
+                             f"per-process string hash seed), so the same random number selects a different element in "
+                             f"another replay")
+    if not any(f.rule == "E5" for f in run.findings):
+        run.ok("E5", "package", f"{n_pop} draws from a population, none ordered by a set")
     for m, c, name, fn, s in summaries:
         opt = optional_params(fn)
         for ev, ctx in walk(s.events):
+            if isinstance(ev, ir.Call) and ev.callee == "expr" and ev.recv is not None and ev.recv[0] == "sub" and \
+                    ev.recv[1][0] == "constdict" and not ctx.inl:
+                # TABLE[key](...): every class the table offers is constructed with these arguments
+                for k, v in ev.recv[1][1]:
+                    sp = _takes_seed(v[1]) if v[0] == "global" else None
+                    if sp is None:
+                        continue
+                    n += 1
+                    fq = f"{c.name + '.' if c else ''}{name}"
+                    if sp not in dict(ev.kwargs) and "**" not in dict(ev.kwargs):
+                        run.fail("E3", f"{fq}:{v[1].rsplit('.', 1)[1]}@table", f"{s.path}:{ev.line}", fq,
+                                 f"{v[1].rsplit('.', 1)[1]}() chosen from a table, without {sp}",
+                                 f"the table entry {k[1]!r} constructs {v[1]} without `{sp}=`: it seeds a private generator from "
+                                 f"OS entropy, so replays under identical global seeds differ")
+                continue
             if not isinstance(ev, ir.Call) or ev.method is not None or ev.recv is not None:
                 continue
             if ctx.inl and (ev.callee, ev.line) in own:
